@@ -28,6 +28,10 @@ type P2Config struct {
 	Blocks  int      `json:"blocks"`
 	G       int      `json:"g,omitempty"` // goroutines (default 1)
 	DupFile bool     `json:"dupfile,omitempty"`
+	// Generation > 0: the bytes beyond the first 16 KiB of every file come from another stream. Sets of different
+	// generations share names, lengths, slice size and the first 16 KiB, hence every file id and the recovery-set id
+	// (neither covers content past 16 KiB), but have different slice checksums and recovery data.
+	Generation int `json:"generation,omitempty"`
 }
 
 func (c P2Config) Key() string { return fmt.Sprintf("%v", c) }
@@ -86,6 +90,10 @@ func BuildP2(cfg P2Config, seed int64) (*P2Set, error) {
 			data = append([]byte{}, s.Data[0]...)
 		} else {
 			data = Content(class, seed, i, n, cfg.Slice)
+			if cfg.Generation > 0 && n > 16384 {
+				alt := Content(class, seed+int64(cfg.Generation)*100003, i, n, cfg.Slice)
+				copy(data[16384:], alt[16384:])
+			}
 		}
 		s.Names = append(s.Names, name)
 		s.Paths = append(s.Paths, path.Join(s.Dir, name))
